@@ -138,7 +138,7 @@ class CallMixin:
         if use_contract:
             return self.apply_contract(self.pick_contract(cs, fi, args, kwargs, n, fr), fi, args, kwargs, n, fr)
         if not (force_inline or fi.kind == 'nested' or key in self.eng.registry.inline_keys or key in self.contract.inline
-                or (fr is None)):
+                or (fr is None) or _returns_constant(fi)):
             raise Unsupported(f'{self.eng.cur_key}:{getattr(n, "lineno", "?")}: no contract for callee {key} (and it is not marked inline)')
         return self.inline_call(fi, args, kwargs, n, fr, closure)
 
@@ -264,6 +264,10 @@ class CallMixin:
             req = c.requires(sc)
             for item in _named3(req, 'pre'):
                 nm, g, meta = item
+                if (meta or {}).get('ghost_def'):
+                    # definitional fact about ghost functions (a conservative extension over a finite tree): assumed, not an obligation
+                    run.assume(g)
+                    continue
                 static = (meta or {}).get('static')
                 if static and getattr(self, 'entry_static', None) and not all(self.heap.arr(f).eq(self.pre_heap.arr(f)) for f in STRUCT_NODE + STRUCT_DICT):
                     # clause about the (static) tree structure: proved over the ENTRY structure (where the caller's own
@@ -878,6 +882,14 @@ class CallMixin:
         if name in ('object.__init__',):
             return NONE
         return self.eng.call_builtin_ext(self, name, a, kw, n, fr, as_cm)
+
+
+def _returns_constant(fi):
+    """a function whose whole body is `return <literal>` (class-level constants written as static properties, e.g. is_leaf):
+    executed from its source wherever it is called"""
+    import ast
+    body = [st for st in getattr(fi.node, 'body', []) if not (isinstance(st, ast.Expr) and isinstance(st.value, ast.Constant))]
+    return len(body) == 1 and isinstance(body[0], ast.Return) and isinstance(body[0].value, ast.Constant)
 
 
 def _named3(res, default):
